@@ -1038,6 +1038,14 @@ pub fn contains_singleline_comments(node: impl Node) -> bool {
         .any(|token| token_contains_comments_search(token, CommentSearch::Single))
 }
 
+/// Checks whether the last token of the node is followed by a singleline comment
+#[cfg(feature = "luau")]
+pub fn ends_with_singleline_comment(node: impl Node) -> bool {
+    node.tokens()
+        .next_back()
+        .map_or(false, |token| token.has_trailing_comments(CommentSearch::Single))
+}
+
 /// Checks whether any [`Field`] within a [`TableConstructor`] contains comments, without checking the braces
 pub fn table_fields_contains_comments(table_constructor: &TableConstructor) -> bool {
     table_constructor.fields().pairs().any(|field| {
